@@ -3,6 +3,8 @@
 A fault is a concrete JSON description; nothing here throws inside library code: faults are *natural*,
 i.e. values handed to the public API for which the real code raises where it really can.
 """
+import copy
+
 from efsim import spec as S, gen
 
 STRONG, WEAK = True, False   # strong: the statement requires a refusal; weak: *if* refused, nothing may change
@@ -15,6 +17,22 @@ def other_dimension_unit(unit):
         if u.Quantity(1.0, cand).dimensionality != dim:
             return cand
     return "m"
+
+
+def unit_differing_by_a_data_size(unit):
+    """'kWh/GB' -> 'kWh', 'GB' -> 'dimensionless', 'kg/TB' -> 'kg', 'GB/gpu' -> '1/gpu' (None when no data size)."""
+    import re
+    m = re.search(r"(?<![A-Za-z])([kMGT]?B)(?![A-Za-z])", unit)
+    if not m:
+        return None
+    from efootprint.constants.units import u
+    b = m.group(1)
+    q = u.Quantity(1.0, unit)
+    for cand in (q * u.Quantity(1.0, b), q / u.Quantity(1.0, b)):
+        txt = f"{cand.units:~}".replace(" ", "")
+        if not re.search(r"(?<![A-Za-z])[kMGT]?B(?![A-Za-z])", txt):
+            return txt or "dimensionless"
+    return None
 
 
 def can_be_negative(cls_name, attr):
@@ -57,6 +75,10 @@ def invalid_values(spec, name, attr):
         unit = cur[2] if cur and cur[0] == "q" else gen.NUM_DEFAULTS.get(cls_name, {}).get(attr, (1, "dimensionless"))[1]
         mag = cur[1] if cur and cur[0] == "q" else 1.0
         out.append(("wrong_dimension", ["q", 1.5, other_dimension_unit(unit)], STRONG))
+        alt = unit_differing_by_a_data_size(unit)
+        if alt:
+            # kWh for kWh/GB, a bare number for GB ...: pint counts data sizes as dimensionless
+            out.append(("wrong_dimension_differing_by_a_data_size", ["q", mag or 1.0, alt], STRONG))
         if not can_be_negative(cls_name, attr):
             out.append(("negative", ["q", -(abs(mag) or 1.0), unit], STRONG))
         out.append(("wrong_type_float", ["raw", 3.5], STRONG))
@@ -202,6 +224,25 @@ def failing_edits(sim, rng):
                         out.append({"op": "group", "fault": "F2", "expect_site": "update_nb_of_instances", "changes": [
                             {"obj": n, "attr": "server_type", "value": ["s", "on-premise"]},
                             {"obj": n, "attr": "fixed_nb_of_instances", "value": bad_fixed}]})
+        if cls == "Job" and "data_stored" in o["attrs"]:
+            # an in-place list edit whose recomputation fails: a new job that deletes far more data than was ever
+            # stored (a valid object as long as nothing uses it) is listed in a step of the system
+            steps = [m for m in inside if spec["objs"][m]["cls"] == "UsageJourneyStep"]
+            if steps:
+                cur = o["attrs"]["data_stored"]
+                attrs = copy.deepcopy(o["attrs"])
+                attrs["data_stored"] = ["q", -(abs(cur[1]) + 1.0) * 1e9, cur[2]]
+                new_name = f"j_del_{len(spec['order'])}"
+                step_ = rng.choice(steps)
+                m_ = rng.choice(["append", "insert", "iadd", "extend", "setitem"])
+                if m_ == "setitem" and not spec["objs"][step_]["attrs"]["jobs"][1]:
+                    m_ = "append"
+                args = {"append": [new_name], "insert": [0, new_name], "iadd": [[new_name]], "extend": [[new_name]],
+                        "setitem": [0, new_name]}[m_]
+                out.append({"op": "compound", "tag": "create_then_list_" + m_, "fault": "F2",
+                            "expect_site": "update_full_cumulative_storage_need", "obj": step_, "attr": "jobs",
+                            "steps": [{"op": "create", "name": new_name, "cls": "Job", "attrs": attrs},
+                                      {"op": "list", "obj": step_, "attr": "jobs", "method": m_, "args": args}]})
         if cls in S.SERVER_CLASSES:
             # a storage already used by another server: accepted by validation, refused by the storage while recomputing
             # (read from the live links: while another failed storage link is installed the description still holds
